@@ -220,7 +220,8 @@ class Topology(ABC):
         """
         if name not in self.nodes.keys():
             raise TopologyException(f'Node {name} is not in this topology.')
-        for i in self.nodes[name].interface_list:
+        # (sub-interfaces are connected to services on their own)
+        for i in [x for top in self.nodes[name].interface_list for x in (top,) + tuple(top.interface_list)]:
             # disconnect if connected to a network service
             peers = i.get_peers(itype=InterfaceType.ServicePort)
             if peers:
@@ -285,7 +286,8 @@ class Topology(ABC):
         if fac.type != NodeType.Facility:
             raise TopologyException(f'{name} is not a Facility node, cannot remove.')
 
-        for i in self.facilities[name].interface_list:
+        # (sub-interfaces are connected to services on their own)
+        for i in [x for top in self.facilities[name].interface_list for x in (top,) + tuple(top.interface_list)]:
             # disconnect if connected to a network service
             peers = i.get_peers(itype=InterfaceType.ServicePort)
             if peers:
